@@ -183,3 +183,19 @@ PROPS["C11"] = dict(
     rule="a case is an operation sequence or a program; non-trivial when a name is defined at two "
          "live scope levels (shadowing occurs) or the program nests macros; distinct by its text",
 )
+
+PROPS["C14"] = dict(
+    streams=["C14"],
+    compare=cmp_laws,
+    classify=lambda case, model, why: dict(kind="failing-input", why=why),
+    gate_imports=EVAL_GATE + "From Cel.Proofs Require Import CompareProofs ContainerProofs.",
+    exhaustive=True,
+    exhaustive_note="all maps with <= 3 (thorough: <= 4) distinct keys over an 8-key alphabet mixing "
+                    "int, uint, bool and string keys, each queried with 18 keys (the alphabet, the "
+                    "int/uint twins, absent keys, extremes) through k in m, m.contains(k), m[k], m.k, "
+                    "has(m.k), as context variable and as literal; all lists of length 0-5 with every "
+                    "index in -2..len+1 and the i64 extremes; byte-offset string indexing; random "
+                    "strings and lists for the additive laws (not exhaustive)",
+    rule="a case is (form, map/list, key/index); non-trivial when the queried key is absent, its "
+         "int/uint twin is present, or the index is out of range; distinct by program and context",
+)
